@@ -12,7 +12,7 @@ def main():
     t0 = time.time()
     import translate_tables
     for fn in (translate_tables.keywords, translate_tables.binding_table, translate_tables.builtins,
-               translate_tables.gate_matrices, translate_tables.qasm_lines, translate_tables.update_constants, translate_tables.operators):
+               translate_tables.gate_matrices, translate_tables.qasm_lines, translate_tables.update_constants, translate_tables.operators, translate_tables.parser_constants):
         try:
             print(fn())
         except translate_tables.TableError as e:
